@@ -56,6 +56,19 @@ REQUIRED = [
     'dynamic_array_ref_assign__ilist', 'dynamic_array_ref_front', 'dynamic_array_ref_back',
     'dynamic_array_ref_pop_back',
     'generated_entry_cursor_ctor',
+    'cursor_get_last_static_field_view__view_offset_absolute_offset',
+    'init_cursor_wrapper_get_last_value__view_size_t_absolute_offset',
+    'init_cursor_wrapper_get_static_field_view__view_size_t_absolute_offset',
+    'init_cursor_wrapper_get_last_static_field_view__view_size_t_absolute_offset',
+    'init_dont_move_cursor_wrapper_get_static_field_view__view_offset_absolute_offset',
+    'dont_move_cursor_wrapper_get_last_value__view_offset_absolute_offset',
+    'dont_move_cursor_wrapper_get_static_field_view__view_offset_absolute_offset',
+    'dont_move_cursor_wrapper_get_last_static_field_view__view_offset_absolute_offset',
+    'dont_move_cursor_wrapper_get_group_view__view_getter', 'dont_move_cursor_wrapper_get_data_view__view_getter',
+    'skip_cursor_wrapper_get_last_value__view_offset_absolute_offset',
+    'skip_cursor_wrapper_get_static_field_view__view_offset_absolute_offset',
+    'skip_cursor_wrapper_get_last_static_field_view__view_offset_absolute_offset',
+    'skip_cursor_wrapper_get_group_view__view_getter', 'skip_cursor_wrapper_get_data_view__view_getter',
 ]
 
 ACCESS = re.compile(
